@@ -15,6 +15,10 @@ import (
 // required fields, the record's generated UnmarshalField (or Skip) per parameter. The fields the
 // query names are reported (defaults are populated by the generated method, not here).
 func (b *Bridge) DecodeQueryFull(rec string, q string) string {
+	return watched(func() string { return b.decodeQueryFull1(rec, q) })
+}
+
+func (b *Bridge) decodeQueryFull1(rec string, q string) string {
 	var outcome string
 	panicked, pv := hx.Recover(func() {
 		qr, err := restlicodec.ParseQueryParams(q)
@@ -181,6 +185,10 @@ func (x *runner) runQueryDecK(n int) {
 				}
 			} else if judged && !strings.HasPrefix(impl, "ok ") {
 				r.OracleFail(hx.Case{Sig: "C06 complete query parameters not decoded", Op: "qdec " + rec + " " + hx.Hex([]byte(q)), Impl: impl, Expected: "ok …"})
+			}
+			if impl == "hang" {
+				r.OracleFail(hx.Case{Sig: "C04 query-parameters reader does not terminate", Op: "qdec " + rec + " " + hx.Hex([]byte(q)), Impl: impl, Expected: "a value or an error"})
+				continue
 			}
 			if strings.HasPrefix(impl, "panic") {
 				r.OracleFail(hx.Case{Sig: "C04 query-parameters reader panicked", Op: "qdec " + rec + " " + hx.Hex([]byte(q)), Impl: impl, Expected: "a value or an error"})
